@@ -7,3 +7,7 @@ open MdVerif.RefText
 #print axioms C06_links_chunks
 #print axioms C06_links_tree_content
 #print axioms C06_chunk_letters
+#print axioms C06_inline_links
+#print axioms C06_inline_links_output
+#print axioms C06_specLinks_spec
+#print axioms C06_getLink_dest
